@@ -117,7 +117,7 @@ def obligations(tier):
                                    "marshalled bytes == reference wire format: %s; tags of %d encoded byte(s); item at offset %d" % (d.split(",")[0].split("/")[0], a, pre)))
     # decoders on arbitrary bytes of length wl, split at wk over two exact-size reference chains
     if tier == "quick":
-        plan = {"TAG": [7], "PEEK": [7], ("INTI", 0): [6], ("INT64I", 0): [10], ("INTI", 2): [8]}
+        plan = {"TAG": [7], "PEEK": [7], ("INTI", 0): [6], ("INT64I", 0): [8], ("INTI", 2): [8]}
     else:
         plan = {"TAG": range(0, 13), "PEEK": range(0, 13), ("INTI", 0): range(0, 13), ("INT64I", 0): range(0, 13), ("INTI", 2): range(0, 13)}
     for key, lens in plan.items():
